@@ -39,6 +39,11 @@ def sym_of_type(I, st, tix, name, depth=0):
             return VSeq(("sym", name), vec_cap(I, t))
         if d.rsplit("::", 1)[-1] == "String":
             return VStr(("sym", name), True)
+        if d == "nom::error::Error":
+            # pub struct Error<I> { pub input: I, pub code: ErrorKind } (nom 7.1.3, pinned)
+            args = [g["ty"] for g in t.get("args", []) if "ty" in g]
+            inp = sym_of_type(I, st, args[0], name + ".input", depth + 1) if args else VOpaque("sym:" + name + ".input")
+            return VAdt(d, 0, (inp, VOpaque("sym:" + name + ".code")))
         a = f.adts.get(d)
         if not a or not a.get("described") or not a["variants"]:
             return VOpaque("sym:" + name, tix)
